@@ -5597,7 +5597,13 @@ func (a *Agent) handleSleepCommand(peerID identity.AgentID, frame *protocol.Fram
 		return
 	}
 
-	// Process through flooder for deduplication and forwarding
+	a.applySleepCommand(peerID, cmd)
+}
+
+// applySleepCommand acts on a decoded sleep command, whichever frame carried it
+// (SLEEP_COMMAND or QUEUED_STATE).
+func (a *Agent) applySleepCommand(peerID identity.AgentID, cmd *protocol.SleepCommand) {
+	// Process through flooder for signature verification, deduplication and forwarding
 	if !a.flooder.HandleSleepCommand(peerID, cmd) {
 		return
 	}
@@ -5626,7 +5632,13 @@ func (a *Agent) handleWakeCommand(peerID identity.AgentID, frame *protocol.Frame
 		return
 	}
 
-	// Process through flooder for deduplication and forwarding
+	a.applyWakeCommand(peerID, cmd)
+}
+
+// applyWakeCommand acts on a decoded wake command, whichever frame carried it
+// (WAKE_COMMAND or QUEUED_STATE).
+func (a *Agent) applyWakeCommand(peerID identity.AgentID, cmd *protocol.WakeCommand) {
+	// Process through flooder for signature verification, deduplication and forwarding
 	if !a.flooder.HandleWakeCommand(peerID, cmd) {
 		return
 	}
@@ -5712,20 +5724,14 @@ func (a *Agent) handleQueuedState(peerID identity.AgentID, frame *protocol.Frame
 		a.flooder.HandleNodeInfoAdvertise(peerID, nodeInfo.OriginAgent, nodeInfo.Sequence, nodeInfo.EncInfo, nodeInfo.SeenBy)
 	}
 
-	// Check for sleep/wake commands in queued state
-	if state.SleepCmd != nil && a.sleepMgr != nil {
-		a.logger.Info("entering sleep mode from queued command")
-		if err := a.sleepMgr.Sleep(); err != nil {
-			a.logger.Error("failed to enter sleep mode from queued command",
-				logging.KeyError, err)
-		}
+	// Sleep/wake commands in queued state take the same path as commands that
+	// arrive in their own frames: the flooder verifies the signature (when a
+	// signing key is configured) and deduplicates before the command is acted on.
+	if state.SleepCmd != nil {
+		a.applySleepCommand(peerID, state.SleepCmd)
 	}
-	if state.WakeCmd != nil && a.sleepMgr != nil {
-		a.logger.Info("waking from queued command")
-		if err := a.sleepMgr.Wake(); err != nil {
-			a.logger.Error("failed to wake from queued command",
-				logging.KeyError, err)
-		}
+	if state.WakeCmd != nil {
+		a.applyWakeCommand(peerID, state.WakeCmd)
 	}
 }
 
